@@ -28,7 +28,8 @@ Record impl_pin := { ii_xn : list Q; ii_stored : list Q; ii_cmp : bool }.
 
 Definition pinVerdict (rt dt minR : Q) (p : pin Qops) (ix : impl_pin) :=
   let nf := p_nf Qops p in
-  let psd := p_psd Qops p in
+  (* the state the iterator advances: the stored distribution after the in-place _processX of the first derivative evaluation *)
+  let psd := startX Qops minR p in
   let ltie := (lim_tie (rt * 64) dt nf psd || class_tie (rt * 64) dt (limitAbove Qops dt (limitBelow Qops dt nf psd) psd) psd)%bool in
   let x' := updateX Qops dt (p_bounds Qops p) psd nf (p_nucRate Qops p) (p_Rnuc Qops p) in
   let nf2 := correctFlux Qops dt nf psd in
